@@ -282,13 +282,13 @@ def run_check(prop: Prop, tier: str, seed: int) -> int:
         if key is not None and key in known_keys:
             known_hits.setdefault(key, (cases[i], what))
         else:
-            violations.append((cases[i], what, impl[i], model_ans[i]))
+            violations.append((cases[i], what, impl[i], model_ans[i], i))
     for c, what in extra:
         key = prop.finding_key(c, what)
         if key is not None and key in known_keys:
             known_hits.setdefault(key, (c, what))
         else:
-            violations.append((c, what, None, None))
+            violations.append((c, what, None, None, None))
 
     # differences on cases that are themselves known findings do not count as a broken tie
     real_diffs = []
@@ -302,24 +302,34 @@ def run_check(prop: Prop, tier: str, seed: int) -> int:
             continue
         real_diffs.append((i, why))
     if real_diffs:
-        broken.append(f"correspondence: {len(real_diffs)} of {len(cases)} cases differ")
+        broken.append(f"correspondence: {len(real_diffs)} of {len(cases)} cases differ" + "".join(f"; {w}" for i, w in real_diffs if i is None))
 
     status = 0
     lines = []
     replay_path = None
     if violations:
-        case, what, ia, ma = violations[0]
+        case, what, ia, ma, idx = violations[0]
 
         def still(c):
             a = canon(run_impl(prop, c))
             return bool(prop.oracle(c, a))
 
         small = case
+        preceding = None
         if ia is not None:
             try:
-                small = shrink_case(prop, case, still)
+                alone = still(case)
             except Exception:  # noqa: BLE001
-                small = case
+                alone = True
+            if alone:
+                try:
+                    small = shrink_case(prop, case, still)
+                except Exception:  # noqa: BLE001
+                    small = case
+            elif idx is not None:
+                # the input fails only after earlier calls in the same process (state kept between calls): the replay
+                # is the failing input together with the cases that ran before it
+                preceding = [canon(x) for x in cases[max(0, idx - 400) : idx]]
         payload = {
             "property": pid,
             "kind": "failing-input",
@@ -332,6 +342,13 @@ def run_check(prop: Prop, tier: str, seed: int) -> int:
             "broken": broken,
             "seed": seed,
         }
+        if preceding is not None:
+            payload["history_dependent"] = (
+                "the input does not fail when it is the only call made in the process; it failed after the "
+                "'preceding_cases' were run (in this order) in the same process"
+            )
+            payload["preceding_cases"] = preceding
+            payload["implementation_answer_in_the_run"] = ia
         replay_path = write_replay(pid, payload)
         lines.append(f"VIOLATION property={pid} replay={replay_path}")
         status = 1
@@ -453,9 +470,15 @@ def run_replay(prop: Prop, path: str) -> int:
         print(json.dumps(payload.get("no_longer_checks"), indent=1))
         return 1
     b = build.build(None)
+    for pc in payload.get("preceding_cases") or []:
+        pc = uncanon(pc) if getattr(prop, "binary_cases", False) else pc
+        try:
+            run_impl(prop, pc)
+        except Exception:  # noqa: BLE001
+            pass
     ans = canon(run_impl(prop, case))
     what = prop.oracle(case, ans)
-    print("case:", json.dumps(case)[:2000])
+    print("case:", json.dumps(canon(case), default=str)[:2000])
     print("implementation:", json.dumps(ans)[:2000])
     if b.ok:
         try:
